@@ -65,7 +65,7 @@ func init() {
 		MinEvals:    floor(100000, 2000000),
 		MinDistinct: floor(20000, 300000),
 		RequiredCells: func(string) []string {
-			cells := []string{"family/a-random", "family/b-mutants", "family/c-signed-malformed", "family/d-bad-key-material", "family/e-hostile-lengths", "family/f-policy-x-data", "bomb/cbor-list", "bomb/cbor-map", "bomb/json-list", "bomb/policy-not", "bomb/signed-deep-args", "bomb/signed-deep-pol", "bomb/selector-long", "bomb/policy-nested-any-failing", "bomb/policy-nested-all-passing", "bomb/policy-nested-and-or-not", "bomb/car-zero-sections", "bomb/cbor-container-empty-entries", "bomb/json-whitespace", "bomb/json-wide-list", "bomb/selector-question-marks", "bomb/signed-wide-args", "bomb/signed-wide-pol", "car-length-sweep", "like-families", "selector/quoted-names", "container/framing-kinds", "concurrent-hostile-decoding", "rss-measured", "past-first-layer"}
+			cells := []string{"family/a-random", "family/b-mutants", "family/c-signed-malformed", "family/d-bad-key-material", "family/e-hostile-lengths", "family/f-policy-x-data", "bomb/cbor-list", "bomb/cbor-map", "bomb/json-list", "bomb/policy-not", "bomb/signed-deep-args", "bomb/signed-deep-pol", "bomb/selector-long", "bomb/policy-nested-any-failing", "bomb/policy-nested-all-passing", "bomb/policy-nested-and-or-not", "bomb/car-zero-sections", "bomb/cbor-container-empty-entries", "bomb/json-whitespace", "bomb/json-wide-list", "bomb/selector-question-marks", "bomb/signed-wide-args", "bomb/signed-wide-pol", "car-length-sweep", "like-families", "selector/quoted-names", "container/framing-kinds", "hostile-varsig-headers", "concurrent-hostile-decoding", "rss-measured", "past-first-layer"}
 			for _, e := range []string{"token.FromSealed", "token.FromDagJson", "delegation.FromSealed", "invocation.FromSealed", "container.FromCbor", "container.FromCar", "container.FromCborBase64", "container.FromCarBase64", "policy.FromDagJson", "policy.FromIPLD", "Policy.Match", "selector.Parse", "Selector.Select", "did.Parse", "DID.PubKey", "args.Add", "literal.Any"} {
 				cells = append(cells, "entry/"+e)
 			}
@@ -789,6 +789,62 @@ func c09Bulk(w *mon.W, part, parts int) {
 		}
 		if js != nil && i%3 == 0 {
 			c.tokenEntries("signed-malformed", js, "dagjson")
+		}
+	}
+
+	// (c'') hostile signature-algorithm headers over an otherwise honest, correctly signed payload:
+	// every varint shape that a reader of unsigned varints must refuse or survive (over-wide,
+	// over-long, truncated, padded with continuation bytes), alone and behind the genuine prefix
+	for ti, typ := range []string{"dlg", "inv"} {
+		for ii, iss := range []*gen.Principal{gen.Ed(11), gen.ByAlg("p256")[0], gen.ByAlg("rsa2048")[0]} {
+			if parts >= 6 && ti*3+ii != part%6 {
+				continue
+			}
+			spec := gen.RandomSpec(r, typ, gen.SpecOpts{Issuer: iss, Minimal: true, NoBig: true})
+			tk, err := spec.Build()
+			if err != nil {
+				continue
+			}
+			sealed, _, err := tk.ToSealed(iss.Priv)
+			if err != nil {
+				continue
+			}
+			env, err := ref.DecodeDagCbor(sealed)
+			if err != nil {
+				continue
+			}
+			info, err := ref.ReadEnvelope(env)
+			if err != nil {
+				continue
+			}
+			h := info.Header
+			rep := func(b byte, n int) []byte { return bytes.Repeat([]byte{b}, n) }
+			cat := func(parts ...[]byte) []byte { return bytes.Join(parts, nil) }
+			var headers [][]byte
+			for _, tail := range [][]byte{
+				cat(rep(0xff, 9), []byte{0x01}), cat(rep(0xff, 9), []byte{0x02}), cat(rep(0xff, 10), []byte{0x01}), rep(0xff, 11), rep(0x80, 12),
+				cat(rep(0x80, 9), []byte{0x00}), cat(rep(0x80, 20), []byte{0x01}), rep(0x80, 1000), {0xed}, {0x80}, {},
+			} {
+				headers = append(headers, tail, cat(h[:1], tail), cat(h, tail))
+				if len(h) > 2 {
+					headers = append(headers, cat(h[:len(h)-1], tail), cat(h[:2], tail, h[2:]))
+				}
+			}
+			for _, hd := range headers {
+				re, err := ref.SignEnvelope(iss.Priv, hd, info.Tag, info.Payload)
+				if err != nil {
+					continue
+				}
+				w.Cover("hostile-varsig-headers")
+				if cb, err := ref.EncodeDagCbor(re); err == nil {
+					w.Distinct(cb)
+					c.tokenEntries("hostile-header", cb, "dagcbor")
+					c.containerEntries("hostile-header", buildCborContainer("ctn-v1", []ref.V{ref.Bytes(cb)}, false))
+				}
+				if js, err := ref.EncodeDagJson(re); err == nil {
+					c.tokenEntries("hostile-header", js, "dagjson")
+				}
+			}
 		}
 	}
 
